@@ -294,6 +294,16 @@ def zeros(shape, dtype=None, **k):
     return full(shape, Fraction(0))
 
 
+def empty(shape, dtype=None, **k):
+    if dtype in (int, _np.int_, bool, _np.bool_):
+        return _np.empty(_shape(shape), dtype=dtype)
+    return full(shape, Fraction(0))
+
+
+def empty_like(a, dtype=None, **k):
+    return empty(_np.shape(a))
+
+
 def ones(shape, dtype=None, **k):
     return full(shape, Fraction(1))
 
